@@ -166,3 +166,193 @@ package js_ast
 //@ gate optional-chain C14: feature=compat.OptionalChain ; site=call TryToInsertOptionalChain ; in=js_ast,js_parser,js_printer,linker ; except=TryToInsertOptionalChain:recursion inside the helper (its callers are the gated sites)
 //@ gate nullish-coalescing C14: feature=compat.NullishCoalescing ; site=call JoinWithLeftAssociativeOp arg0=js_ast.BinOpNullishCoalescing ; in=js_ast,js_parser,js_printer,linker ; except=(*binaryExprVisitor).visitRightAndFinish:re-associates an existing ?? expression (a ?? (b ?? c)) and introduces no new operator
 //@ gate linker-arrow C14: feature=compat.Arrow ; site=alloc EArrow ; in=linker
+
+// ----------------------------------------------------------------------------------------------
+// C01/C03: compile-time ToString of a primitive literal (ECMA-262 7.1.17) as used by string-addition
+// and template folding. The folded text must be the JavaScript string value of the literal:
+//   null/undefined/booleans: the fixed words; a BigInt literal: its own text ONLY when that text is the
+//   decimal representation, i.e. it is a single digit or does not start with "0" (every literal that
+//   starts with "0" and is longer is a 0b/0o/0x/0B/0O/0X radix literal: BigInt has no legacy octal form).
+// (Numeric separators are removed by the lexer before the AST is built: assumption.)
+//@ func ToStringWithoutSideEffects
+//@   arith int
+//@   prop C01 C03
+//@   modifies nothing
+//@   ensures null: is(data, *ENull) ==> result1 && result0 == "null"
+//@   ensures undefined: is(data, *EUndefined) ==> result1 && result0 == "undefined"
+//@   ensures boolean: is(data, *EBoolean) && data.(*EBoolean) != nil ==> result1 && result0 == (data.(*EBoolean).Value ? "true" : "false")
+//@   ensures bigint-decimal-only: is(data, *EBigInt) && data.(*EBigInt) != nil && result1 ==>
+//@       result0 == data.(*EBigInt).Value && (len(data.(*EBigInt).Value) < 2 || data.(*EBigInt).Value[0] != '0')
+//@   ensures bigint-decimal-folds: is(data, *EBigInt) && data.(*EBigInt) != nil && (len(data.(*EBigInt).Value) < 2 || data.(*EBigInt).Value[0] != '0') ==>
+//@       result1 && result0 == data.(*EBigInt).Value
+//@   ensures others-unfolded: !is(data, *ENull) && !is(data, *EUndefined) && !is(data, *EBoolean) && !is(data, *EBigInt) && !is(data, *ENumber) && !is(data, *ERegExp) && !is(data, *EDot) ==> !result1
+
+// ----------------------------------------------------------------------------------------------
+// C04: the purity classifier must be HEREDITARY. Spec source: the property ("a top-level statement is
+// omitted only if executing it would have no observable effect ... side effects hidden in every
+// syntactic position the analysis inspects"): an expression may be classified removable only if it is
+// one of the expression kinds whose own evaluation is effect-free AND every operand position that is
+// evaluated is itself classified removable (or is one of the documented guarded `typeof x` patterns).
+// R(e) below is the classifier itself, used as a deterministic function of the (unchanged) AST:
+// the contract says R is closed downwards, so no operand position can be skipped.
+// Leaf classifications delegated to other helpers are uninterpreted here (trusted, `ensures true`).
+//@ func KnownPrimitiveType
+//@   trusted
+//@   opt heappure
+//@   modifies nothing
+//@   ensures true
+//@ func CanChangeStrictToLoose
+//@   trusted
+//@   opt heappure
+//@   modifies nothing
+//@   ensures true
+//@ func IsPrimitiveLiteral
+//@   trusted
+//@   opt heappure
+//@   modifies nothing
+//@   ensures true
+//@ func IsSymbolInstance
+//@   trusted
+//@   opt heappure
+//@   modifies nothing
+//@   ensures true
+//@ func (HelperContext).isSideEffectFreeUnboundIdentifierRef
+//@   trusted
+//@   opt heappure
+//@   modifies nothing
+//@   ensures true
+
+// an array item: `...[inline array]` is transparent (spreading an array literal runs no user code)
+//@ spec func arrayItemOK(ctx HelperContext, item Expr) bool =
+//@     (is(item.Data, *ESpread) && is(item.Data.(*ESpread).Value.Data, *EArray)) ?
+//@         ctx.ExprCanBeRemovedIfUnused(item.Data.(*ESpread).Value) : ctx.ExprCanBeRemovedIfUnused(item)
+// an object property: no spread, no computed key that could run code, and a removable value
+//@ spec func propertyOK(ctx HelperContext, p Property) bool =
+//@     p.Kind != PropertySpread &&
+//@     ((p.Flags & PropertyIsComputed) == 0 || IsPrimitiveLiteral(p.Key.Data) || IsSymbolInstance(p.Key.Data)) &&
+//@     (p.ValueOrNil.Data == nil || ctx.ExprCanBeRemovedIfUnused(p.ValueOrNil))
+//@ spec func templatePartOK(ctx HelperContext, p TemplatePart) bool =
+//@     ctx.ExprCanBeRemovedIfUnused(p.Value) && KnownPrimitiveType(p.Value.Data) != PrimitiveUnknown
+
+//@ func (HelperContext).ExprCanBeRemovedIfUnused
+//@   arith int
+//@   prop C04
+//@   opt heappure
+//@   modifies nothing
+//@   ensures kinds: result ==> (is(expr.Data, *EAnnotation) || is(expr.Data, *EInlinedEnum) || is(expr.Data, *ENull) || is(expr.Data, *EUndefined) ||
+//@       is(expr.Data, *EMissing) || is(expr.Data, *EBoolean) || is(expr.Data, *ENumber) || is(expr.Data, *EBigInt) || is(expr.Data, *EString) ||
+//@       is(expr.Data, *EThis) || is(expr.Data, *ERegExp) || is(expr.Data, *EFunction) || is(expr.Data, *EArrow) || is(expr.Data, *EImportMeta) ||
+//@       is(expr.Data, *EDot) || is(expr.Data, *EClass) || is(expr.Data, *EIdentifier) || is(expr.Data, *EImportIdentifier) || is(expr.Data, *EIf) ||
+//@       is(expr.Data, *EArray) || is(expr.Data, *EObject) || is(expr.Data, *ECall) || is(expr.Data, *ENew) || is(expr.Data, *EUnary) ||
+//@       is(expr.Data, *EBinary) || is(expr.Data, *ETemplate))
+//@   ensures annotation: result && is(expr.Data, *EAnnotation) ==> (expr.Data.(*EAnnotation).Flags & CanBeRemovedIfUnusedFlag) != 0
+//@   ensures enum: result && is(expr.Data, *EInlinedEnum) ==> ctx.ExprCanBeRemovedIfUnused(expr.Data.(*EInlinedEnum).Value)
+//@   ensures dot: result && is(expr.Data, *EDot) ==> expr.Data.(*EDot).CanBeRemovedIfUnused
+//@   ensures class: result && is(expr.Data, *EClass) ==> ctx.ClassCanBeRemovedIfUnused(expr.Data.(*EClass).Class)
+//@   ensures identifier: result && is(expr.Data, *EIdentifier) ==> !expr.Data.(*EIdentifier).MustKeepDueToWithStmt
+//@   ensures conditional: result && is(expr.Data, *EIf) ==> ctx.ExprCanBeRemovedIfUnused(expr.Data.(*EIf).Test) &&
+//@       (ctx.ExprCanBeRemovedIfUnused(expr.Data.(*EIf).Yes) || ctx.isSideEffectFreeUnboundIdentifierRef(expr.Data.(*EIf).Yes, expr.Data.(*EIf).Test, true)) &&
+//@       (ctx.ExprCanBeRemovedIfUnused(expr.Data.(*EIf).No) || ctx.isSideEffectFreeUnboundIdentifierRef(expr.Data.(*EIf).No, expr.Data.(*EIf).Test, false))
+//@   ensures array: result && is(expr.Data, *EArray) ==>
+//@       (forall i int :: 0 <= i && i < len(expr.Data.(*EArray).Items) ==> arrayItemOK(ctx, expr.Data.(*EArray).Items[i]))
+//@   ensures object: result && is(expr.Data, *EObject) ==>
+//@       (forall i int :: 0 <= i && i < len(expr.Data.(*EObject).Properties) ==> propertyOK(ctx, expr.Data.(*EObject).Properties[i]))
+//@   ensures call: result && is(expr.Data, *ECall) ==> expr.Data.(*ECall).CanBeUnwrappedIfUnused &&
+//@       (forall i int :: 0 <= i && i < len(expr.Data.(*ECall).Args) ==> ctx.ExprCanBeRemovedIfUnused(expr.Data.(*ECall).Args[i]))
+//@   ensures new: result && is(expr.Data, *ENew) ==> expr.Data.(*ENew).CanBeUnwrappedIfUnused &&
+//@       (forall i int :: 0 <= i && i < len(expr.Data.(*ENew).Args) ==> ctx.ExprCanBeRemovedIfUnused(expr.Data.(*ENew).Args[i]))
+//@   ensures unary: result && is(expr.Data, *EUnary) ==>
+//@       ((expr.Data.(*EUnary).Op == UnOpVoid || expr.Data.(*EUnary).Op == UnOpNot) && ctx.ExprCanBeRemovedIfUnused(expr.Data.(*EUnary).Value)) ||
+//@       (expr.Data.(*EUnary).Op == UnOpNeg && is(expr.Data.(*EUnary).Value.Data, *EBigInt)) ||
+//@       (expr.Data.(*EUnary).Op == UnOpTypeof && ((is(expr.Data.(*EUnary).Value.Data, *EIdentifier) && expr.Data.(*EUnary).WasOriginallyTypeofIdentifier) ||
+//@           ctx.ExprCanBeRemovedIfUnused(expr.Data.(*EUnary).Value)))
+//@   ensures binary-operands: result && is(expr.Data, *EBinary) ==> ctx.ExprCanBeRemovedIfUnused(expr.Data.(*EBinary).Left) &&
+//@       (ctx.ExprCanBeRemovedIfUnused(expr.Data.(*EBinary).Right) ||
+//@        (expr.Data.(*EBinary).Op == BinOpLogicalOr && ctx.isSideEffectFreeUnboundIdentifierRef(expr.Data.(*EBinary).Right, expr.Data.(*EBinary).Left, false)) ||
+//@        (expr.Data.(*EBinary).Op == BinOpLogicalAnd && ctx.isSideEffectFreeUnboundIdentifierRef(expr.Data.(*EBinary).Right, expr.Data.(*EBinary).Left, true)))
+//@   ensures binary-operators: result && is(expr.Data, *EBinary) ==>
+//@       expr.Data.(*EBinary).Op == BinOpStrictEq || expr.Data.(*EBinary).Op == BinOpStrictNe || expr.Data.(*EBinary).Op == BinOpComma ||
+//@       expr.Data.(*EBinary).Op == BinOpNullishCoalescing || expr.Data.(*EBinary).Op == BinOpLogicalOr || expr.Data.(*EBinary).Op == BinOpLogicalAnd ||
+//@       ((expr.Data.(*EBinary).Op == BinOpLooseEq || expr.Data.(*EBinary).Op == BinOpLooseNe) && CanChangeStrictToLoose(expr.Data.(*EBinary).Left, expr.Data.(*EBinary).Right)) ||
+//@       ((expr.Data.(*EBinary).Op == BinOpLt || expr.Data.(*EBinary).Op == BinOpGt || expr.Data.(*EBinary).Op == BinOpLe || expr.Data.(*EBinary).Op == BinOpGe) &&
+//@        KnownPrimitiveType(expr.Data.(*EBinary).Left.Data) == KnownPrimitiveType(expr.Data.(*EBinary).Right.Data) &&
+//@        (KnownPrimitiveType(expr.Data.(*EBinary).Left.Data) == PrimitiveString || KnownPrimitiveType(expr.Data.(*EBinary).Left.Data) == PrimitiveNumber ||
+//@         KnownPrimitiveType(expr.Data.(*EBinary).Left.Data) == PrimitiveBigInt))
+//@   ensures template: result && is(expr.Data, *ETemplate) ==>
+//@       (expr.Data.(*ETemplate).TagOrNil.Data == nil || expr.Data.(*ETemplate).CanBeUnwrappedIfUnused) &&
+//@       (forall i int :: 0 <= i && i < len(expr.Data.(*ETemplate).Parts) ==> templatePartOK(ctx, expr.Data.(*ETemplate).Parts[i]))
+//@   loop 0 invariant forall i int :: 0 <= i && i <= rangeindex ==> arrayItemOK(ctx, expr.Data.(*EArray).Items[i])
+//@   loop 1 invariant forall i int :: 0 <= i && i <= rangeindex ==> propertyOK(ctx, expr.Data.(*EObject).Properties[i])
+//@   loop 2 invariant forall i int :: 0 <= i && i <= rangeindex ==> ctx.ExprCanBeRemovedIfUnused(expr.Data.(*ECall).Args[i])
+//@   loop 3 invariant forall i int :: 0 <= i && i <= rangeindex ==> ctx.ExprCanBeRemovedIfUnused(expr.Data.(*ENew).Args[i])
+//@   loop 4 invariant forall i int :: 0 <= i && i <= rangeindex ==> templatePartOK(ctx, expr.Data.(*ETemplate).Parts[i])
+
+// Classes: no decorators anywhere (they are calls), a removable `extends` clause, and for every member: a static
+// block is a removable statement list; a computed key must be a primitive literal or a well-known symbol; a
+// static member's value/initializer is evaluated at class definition time and must be removable; a static
+// field with assign semantics (useDefineForClassFields off) may trigger a setter and is never removable.
+//@ spec func methodArgsUndecorated(p Property) bool =
+//@     p.Kind.IsMethodDefinition() && is(p.ValueOrNil.Data, *EFunction) ==>
+//@         (forall j int :: 0 <= j && j < len(p.ValueOrNil.Data.(*EFunction).Fn.Args) ==> len(p.ValueOrNil.Data.(*EFunction).Fn.Args[j].Decorators) == 0)
+//@ spec func classPropertyOK(ctx HelperContext, class Class, p Property) bool =
+//@     p.Kind == PropertyClassStaticBlock ? ctx.StmtsCanBeRemovedIfUnused(p.ClassStaticBlock.Block.Stmts, 0) :
+//@     (len(p.Decorators) == 0 &&
+//@      (!p.Flags.Has(PropertyIsComputed) || IsPrimitiveLiteral(p.Key.Data) || IsSymbolInstance(p.Key.Data)) &&
+//@      methodArgsUndecorated(p) &&
+//@      (p.Flags.Has(PropertyIsStatic) ==>
+//@          (p.ValueOrNil.Data == nil || ctx.ExprCanBeRemovedIfUnused(p.ValueOrNil)) &&
+//@          (p.InitializerOrNil.Data == nil || ctx.ExprCanBeRemovedIfUnused(p.InitializerOrNil)) &&
+//@          !(p.Kind == PropertyField && !class.UseDefineForClassFields)))
+
+//@ func (HelperContext).ClassCanBeRemovedIfUnused
+//@   arith int
+//@   prop C04
+//@   opt heappure
+//@   opt transparent methodArgsUndecorated
+//@   modifies nothing
+//@   ensures undecorated: result ==> len(class.Decorators) == 0
+//@   ensures extends: result ==> class.ExtendsOrNil.Data == nil || ctx.ExprCanBeRemovedIfUnused(class.ExtendsOrNil)
+//@   ensures members: result ==> (forall i int :: 0 <= i && i < len(class.Properties) ==> classPropertyOK(ctx, class, class.Properties[i]))
+//@   loop 0 invariant forall i int :: 0 <= i && i <= rangeindex ==> classPropertyOK(ctx, class, class.Properties[i])
+//@   loop 1 invariant forall j int :: 0 <= j && j <= rangeindex ==> len(fn.Fn.Args[j].Decorators) == 0
+
+// Statement lists: only the statement kinds whose execution is unobservable, each with every evaluated
+// position removable.
+//@ spec func bindingItemOK(ctx HelperContext, item ArrayBinding) bool =
+//@     (item.DefaultValueOrNil.Data == nil || ctx.ExprCanBeRemovedIfUnused(item.DefaultValueOrNil)) &&
+//@     (is(item.Binding.Data, *BIdentifier) || is(item.Binding.Data, *BMissing))
+//@ spec func declOK(ctx HelperContext, kind LocalKind, decl Decl) bool =
+//@     (is(decl.Binding.Data, *BIdentifier) ||
+//@      (is(decl.Binding.Data, *BArray) && is(decl.ValueOrNil.Data, *EArray) &&
+//@       (forall m int :: 0 <= m && m < len(decl.Binding.Data.(*BArray).Items) ==> bindingItemOK(ctx, decl.Binding.Data.(*BArray).Items[m])))) &&
+//@     (decl.ValueOrNil.Data == nil ||
+//@      (ctx.ExprCanBeRemovedIfUnused(decl.ValueOrNil) &&
+//@       (kind.IsUsing() ==> KnownPrimitiveType(decl.ValueOrNil.Data) == PrimitiveNull || KnownPrimitiveType(decl.ValueOrNil.Data) == PrimitiveUndefined)))
+//@ spec func localOK(ctx HelperContext, s *SLocal) bool =
+//@     s.Kind != LocalAwaitUsing && (forall k int :: 0 <= k && k < len(s.Decls) ==> declOK(ctx, s.Kind, s.Decls[k]))
+//@ spec func exportDefaultOK(ctx HelperContext, s *SExportDefault) bool =
+//@     is(s.Value.Data, *SFunction) ||
+//@     (is(s.Value.Data, *SExpr) && ctx.ExprCanBeRemovedIfUnused(s.Value.Data.(*SExpr).Value)) ||
+//@     (is(s.Value.Data, *SClass) && ctx.ClassCanBeRemovedIfUnused(s.Value.Data.(*SClass).Class))
+//@ spec func stmtOK(ctx HelperContext, stmt Stmt, flags StmtsCanBeRemovedIfUnusedFlags) bool =
+//@     is(stmt.Data, *SFunction) || is(stmt.Data, *SEmpty) || is(stmt.Data, *SImport) || is(stmt.Data, *SExportFrom) ||
+//@     (is(stmt.Data, *SClass) && ctx.ClassCanBeRemovedIfUnused(stmt.Data.(*SClass).Class)) ||
+//@     (is(stmt.Data, *SReturn) && (flags & ReturnCanBeRemovedIfUnused) != 0 &&
+//@         (stmt.Data.(*SReturn).ValueOrNil.Data == nil || ctx.ExprCanBeRemovedIfUnused(stmt.Data.(*SReturn).ValueOrNil))) ||
+//@     (is(stmt.Data, *SExpr) && (ctx.ExprCanBeRemovedIfUnused(stmt.Data.(*SExpr).Value) || stmt.Data.(*SExpr).IsFromClassOrFnThatCanBeRemovedIfUnused)) ||
+//@     (is(stmt.Data, *SLocal) && localOK(ctx, stmt.Data.(*SLocal))) ||
+//@     (is(stmt.Data, *STry) && ctx.StmtsCanBeRemovedIfUnused(stmt.Data.(*STry).Block.Stmts, 0) &&
+//@         (stmt.Data.(*STry).Finally == nil || ctx.StmtsCanBeRemovedIfUnused(stmt.Data.(*STry).Finally.Block.Stmts, 0))) ||
+//@     (is(stmt.Data, *SExportClause) && (flags & KeepExportClauses) == 0) ||
+//@     (is(stmt.Data, *SExportDefault) && exportDefaultOK(ctx, stmt.Data.(*SExportDefault)))
+
+//@ func (HelperContext).StmtsCanBeRemovedIfUnused
+//@   arith int
+//@   prop C04
+//@   opt heappure
+//@   opt transparent localOK declOK
+//@   modifies nothing
+//@   ensures every-statement: result ==> (forall i int :: 0 <= i && i < len(stmts) ==> stmtOK(ctx, stmts[i], flags))
+//@   loop 0 invariant forall i int :: 0 <= i && i <= rangeindex ==> stmtOK(ctx, stmts[i], flags)
+//@   loop 1 invariant s.Kind != LocalAwaitUsing && (forall k int :: 0 <= k && k <= rangeindex ==> declOK(ctx, s.Kind, s.Decls[k]))
+//@   loop 2 invariant forall m int :: 0 <= m && m <= rangeindex ==> bindingItemOK(ctx, binding.Items[m])
